@@ -253,14 +253,16 @@ static void* freed[256];
 static int nfreed;
 static void free_hook(void* p, size_t size) { (void)size; if (nfreed < 256) freed[nfreed++] = p; }
 
+static uint64_t g_new_strings, g_hist_salt;
 static cbor_item_t* r_new(int kind, int cap) {
   cbor_item_t* it = NULL;
   vh_in_lib = 1;
   switch (kind) {
     case K_INT: it = cbor_build_uint8(7); break;
     case K_FLOAT: it = cbor_build_float4(1.5f); break;
-    case K_BSTR: it = cbor_build_bytestring((const unsigned char*)"abcdefgh", 8); break;
-    case K_TSTR: it = cbor_build_string("stuvwxyz"); break;
+    /* one string in four is created without ever being given a buffer: a valid empty string (handle NULL, length 0) */
+    case K_BSTR: it = ((g_new_strings++ + g_hist_salt) & 3) == 3 ? cbor_new_definite_bytestring() : cbor_build_bytestring((const unsigned char*)"abcdefgh", 8); break;
+    case K_TSTR: it = ((g_new_strings++ + g_hist_salt) & 3) == 3 ? cbor_new_definite_string() : cbor_build_string("stuvwxyz"); break;
     case K_DARR: it = cbor_new_definite_array((size_t)cap); break;
     case K_IARR: it = cbor_new_indefinite_array(); break;
     case K_DMAP: it = cbor_new_definite_map((size_t)cap); break;
@@ -553,6 +555,8 @@ static int run_history(const struct op* ops, int nops, bool allow_oob) {
   memset(ritem, 0, sizeof ritem);
   memset(rslot, 0, sizeof rslot);
   memset(last_alloc, 0, sizeof last_alloc);
+  g_new_strings = 0;
+  g_hist_salt = (uint64_t)nops; /* which of a history's strings is the handle-less one varies with its length */
   size_t live0 = live_blocks();
   int executed = 0;
   struct op done[64];
